@@ -2195,7 +2195,8 @@ bn_sub(bn_p bn, bn_p n, bn_digit_t *borrow) {
 	}
 	digits = bn->digits;
 	if (digits < n->digits ||
-	    (digits == n->digits && bn->num[(digits - 1)] <= n->num[(digits - 1)])) {
+	    (digits == n->digits && (0 == digits || /* Both zero: no top digit to compare. */
+	    bn->num[(digits - 1)] <= n->num[(digits - 1)]))) {
 		digits = bn->count;
 	}
 	bn_init_digits__int(bn, digits);
